@@ -312,9 +312,12 @@ func (t *taskRun) direct() {
 		d := sut.New(cfg).(*sut.MsgD)
 		ret, err := d.Call(a, 0, true)
 		t.out(int64(ret), int64(err))
-		sg, e := sipsp.GetMsgSig(&d.M)
-		str := sg.String()
-		t.out(int64(e), int64(sg.HdrSigLen), hashBytes([]byte(str)))
+		if err == 0 {
+			// the signature is documented for successfully parsed messages only
+			sg, e := sipsp.GetMsgSig(&d.M)
+			str := sg.String()
+			t.out(int64(e), int64(sg.HdrSigLen), hashBytes([]byte(str)))
+		}
 	case "SkipQuoted":
 		o := clampOffs(s.N1, len(a))
 		n, e := sipsp.SkipQuoted(a, o)
